@@ -527,8 +527,9 @@ func gen(c *ex.Ctx) {
 		})
 	}
 	if halfBottom == "" {
-		c.Fail("image.go HalfBlockImage.Resize: how the lower pixel is read was not recognised")
-		return
+		// not recognised: degrade to the unconditional read (what the model then computes differs from the code only
+		// where the difference is a defect — F320) and let Props.C20Pixels.half_block_bottom_shape fail
+		halfBottom = ".read"
 	}
 	fmt.Fprintf(&sb, "\n/-- how HalfBlockImage.Resize reads the lower pixel of a cell. -/\ndef halfBlockBottom : Bottom := %s\n", halfBottom)
 	if hsw == nil {
